@@ -58,6 +58,8 @@ pub struct GwRt {
     pub seen: BTreeMap<(String, String), u8>,
     pub approved_events: BTreeMap<(String, String), u32>,
     pub executed_events: BTreeMap<(String, String), u32>,
+    /// what was delivered to which app, for the redelivery probe
+    pub delivered: BTreeMap<(String, String), (MMsg, Vec<u8>, Address)>,
 }
 
 pub struct BuiltProof {
@@ -207,6 +209,7 @@ impl<'a> GExec<'a> {
                 seen: BTreeMap::new(),
                 approved_events: BTreeMap::new(),
                 executed_events: BTreeMap::new(),
+                delivered: BTreeMap::new(),
             });
         }
         sim.end_setup();
@@ -812,6 +815,45 @@ impl<'a> GExec<'a> {
         true
     }
 
+    /// The gateway no longer reports a delivered message as executed.  That alone is the gateway's
+    /// status property; for the application the question is whether the message can now reach it
+    /// again by legal steps: the newest signer set approves the same message once more and the same
+    /// delivery is repeated.  false = the application acted a second time (violation recorded).
+    fn redelivery_probe(&mut self, ctx: &mut Ctx, g: usize, key: &(String, String)) -> bool {
+        let Some((claimed, payload, app_addr)) = self.gws[g].delivered.get(key).cloned() else { return true };
+        let env = self.env().clone();
+        let latest_h = self.gws[g].m.by_epoch.get(&self.gws[g].m.epoch).copied();
+        let latest_pool = latest_h.and_then(|h| self.known_sets.get(&h).cloned()).and_then(|s| self.cfg.pool.iter().position(|p| *p == s));
+        let Some(lp) = latest_pool else { return true };
+        ctx.count("probe.redelivery_after_lost_executed_marker");
+        let spec = ProofSpec { set: lp as u8, mask: u64::MAX, tamper: Tamper::None, sig_fault: SigFault::None, digest: DigestVar::default() };
+        let resolved = [claimed.clone()];
+        let data_hash = approve_data_hash(&resolved);
+        let body = svec(resolved.iter().map(|m| m.to_scval()).collect());
+        let built = self.build_proof(g, &spec, &data_hash, "ApproveMessages", &body);
+        let mut mv: SVec<Message> = SVec::new(&env);
+        mv.push_back(self.msg_val(&claimed, &app_addr));
+        let pv = proof_to_val(&env, &built);
+        let gaddr = self.gws[g].addr.clone();
+        let args: SVec<Val> = (mv, pv).into_val(&env);
+        let _ = self.sim.call(&gaddr, "approve_messages", args, &[], None);
+        let args: SVec<Val> = (
+            SStr::from_str(&env, &claimed.source_chain),
+            SStr::from_str(&env, &claimed.message_id),
+            SStr::from_str(&env, &claimed.source_address),
+            Bytes::from_slice(&env, &payload),
+        )
+            .into_val(&env);
+        let res = self.sim.call(&app_addr, "execute", args, &[], None);
+        let app_events = res.events.iter().filter(|e| e.contract == addr_bytes(&app_addr)).count();
+        ctx.check(res.out.is_err() && app_events == 0, &["C16"], "deliver/delivered-message-delivered-again", || {
+            format!(
+                "message {:?} was delivered, the gateway then stopped reporting it as executed, and after an honest re-approval the same delivery succeeded again ({} app event(s))",
+                key, app_events
+            )
+        })
+    }
+
     /// is_message_approved(full fields) and is_message_executed against the model
     pub fn check_status(
         &mut self,
@@ -853,6 +895,9 @@ impl<'a> GExec<'a> {
                 m.source_chain, m.message_id, av, exp_approved
             )
         }) {
+            return false;
+        }
+        if exp_executed && evv == Some(false) && ctx.focus == "C16" && !self.redelivery_probe(ctx, g, &key) {
             return false;
         }
         if !ctx.check(evv == Some(exp_executed), props, "query/is-executed-disagrees", || {
@@ -1156,6 +1201,7 @@ impl<'a> GExec<'a> {
             return;
         }
         self.gws[g].m.status.insert(key.clone(), MsgStatus::Executed);
+        self.gws[g].delivered.insert(key.clone(), (claimed.clone(), payload.clone(), app_addr.clone()));
         *self.gws[g].executed_events.entry(key).or_insert(0) += 1;
         let gw_ev = Ev {
             contract: addr_bytes(&gaddr),
